@@ -28,7 +28,7 @@ ASSUMPTIONS = [
 COMPONENTS = {"real": ["Exchange", "LimitOrderBook", "EventNBBO", "EventContractDiscontinued", "IEvent.notify dispatch", "TradingEnv.notify (one third of the runs)", "contracts", "FutureChain"],
               "harness": ["dict book model", "calendar-free lead model"], "stub": []}
 PROBE_FLOORS = {"revival_attempt": 200, "chain_key_after_roll": 100, "string_key_query": 200, "quote_other_key_between": 500,
-                "query_dead_book": 200, "chain_quote_dispatched_by_environment": 700}
+                "query_dead_book": 200, "chain_quote_dispatched_by_environment": 700, "events_delivered_by_an_episode": 350, "replay_with_events_inside_latency_windows": 200}
 
 
 def generate(rng, i):
@@ -63,14 +63,14 @@ def generate(rng, i):
     t = core.parse_t("2019-01-02T00:00:00")
     script = []
     length = rng.randint(3, 30) if rng.random() < 0.9 else rng.randint(31, 150)
-    mode = rng.choice(["direct", "notify", "env"])
+    mode = rng.choice(["direct", "notify", "env", "episode"])
     via_notify = mode != "direct"
     t_cap = core.parse_t("2020-06-01T00:00:00")
     last = {}
     for _ in range(length):
         r = rng.random()
         k = rng.randrange(n)
-        dt = timedelta(seconds=rng.choice([0, 1, 60, 86400, 7 * 86400] + ([30 * 86400] if mode == "env" else [])))
+        dt = timedelta(seconds=rng.choice([0, 1, 60, 86400, 7 * 86400] + ([30 * 86400] if mode == "env" else []) + ([30, 20, 3 * 86400] if mode == "episode" else [])))
         if t + dt <= t_cap:
             t = t + dt
         if r < 0.45:
@@ -139,7 +139,122 @@ def execute(scenario):
         return _execute(sc, clock0)
 
 
+def _execute_episode(sc, clock0):
+    """The script's quote / discontinuation events are handed to a real Transmitter (daily timesteps, latency 45 s)
+    and delivered by TradingEnv: reset() on the later of two folds replays everything stamped up to the fold's first
+    timestep, then each step delivers one more day. After reset and after every step the whole exchange is compared
+    with the model fed with the same events in timestamp order (equal stamps in insertion order)."""
+    from tradingenv.env import TradingEnv
+    from tradingenv.transmitter import Transmitter
+    from tradingenv.spaces import BoxPortfolio
+    from tradingenv.contracts import ETF
+    violations, probes, faults, log = [], {}, {}, []
+    stats = {"ops": 0, "quotes": 0, "queries": 0}
+    specs = sc["contracts"]
+    contracts = [world.build_contract(s) for s in specs]
+    M = Model(specs, contracts)
+
+    def probe(n):
+        probes[n] = probes.get(n, 0) + 1
+
+    def violate(k, clause, msg, **sig):
+        if not violations:
+            violations.append({"clause": clause, "sig": sig, "op": k, "msg": msg})
+
+    evs = [(core.parse_t(op["t"]), j, op) for j, op in enumerate(sc["script"]) if op["op"] in ("quote", "disc")]
+    if not evs:
+        return {"violations": [], "digest": core.digest([]), "probes": {}, "faults": {}, "stats": stats, "trace": "episode-empty", "nontrivial": False}
+    day0 = clock0.replace(hour=0, minute=0, second=0, microsecond=0)
+    last = max(t for t, _, _ in evs)
+    ndays = (last - day0).days + 2
+    grid = [day0 + timedelta(days=d) for d in range(ndays + 1)]
+    dummy = ETF("ZZDUMMY")
+    tr = Transmitter(timesteps=grid, folds={"a": [grid[0], grid[max(0, ndays // 2 - 1)]], "b": [grid[ndays // 2], grid[-1]]})
+    objs = []
+    for t, j, op in evs:
+        c = contracts[op["k"]]
+        objs.append(EventNBBO(t, c, op["bid"], op["ask"]) if op["op"] == "quote" else EventContractDiscontinued(t, c))
+    tr.add_events([EventNBBO(g, dummy, 1.0, 1.0) for g in grid] + objs)
+    env = TradingEnv(action_space=BoxPortfolio([dummy]), transmitter=tr, latency=45.0)
+    ordered = sorted(evs, key=lambda e: (e[0], e[1]))
+    applied = 0
+    now = [clock0]
+
+    def apply_until(limit):
+        nonlocal applied
+        while applied < len(ordered) and ordered[applied][0] <= limit:
+            t, j, op = ordered[applied]
+            sym, lead = M.resolve(op["k"], t)
+            mb = M.book(sym)
+            if op["op"] == "quote":
+                stats["quotes"] += 1
+                if mb["alive"]:
+                    mb["bid"], mb["ask"] = op["bid"], op["ask"]
+                    mb["hist"].append((t, op["bid"], op["ask"]))
+                else:
+                    probe("revival_attempt")
+                if lead is not None:
+                    probe("chain_quote_delivered_in_an_episode")
+            else:
+                mb["alive"] = False
+                mb["bid"] = mb["ask"] = NAN
+            applied += 1
+
+    def compare(tag):
+        ex = env.exchange
+        for j in range(len(specs)):
+            sym, lead = M.resolve(j, now[0])
+            mb = M.book(sym)
+            rb = ex[contracts[j]]
+            name = specs[j]["name"] + "->" + sym
+            if not (same(rb.bid_price, mb["bid"]) and same(rb.ask_price, mb["ask"])):
+                kind = "dead_book_has_price" if not mb["alive"] else ("chain_wrong_book" if lead is not None else "last_quote")
+                violate(tag, "book_state", "{} ({}): exchange reports {}:{} but the last quote stamped so far is {}:{} (alive={})".format(
+                    name, tag, rb.bid_price, rb.ask_price, mb["bid"], mb["ask"], mb["alive"]), kind=kind, by_string=False)
+                return
+            h = rb.history
+            got = list(zip(h["time"], h["bid_price"], h["ask_price"]))
+            if len(got) != len(mb["hist"]) or any(g[0] != w[0] or not same(g[1], w[1]) or not same(g[2], w[2]) for g, w in zip(got, mb["hist"])):
+                violate(tag, "history", "{} ({}): history has {} entries {} but the quotes stamped so far, in timestamp order, are {}".format(
+                    name, tag, len(got), [str(g[0]) for g in got][:6], [str(w[0]) for w in mb["hist"]][:6]), kind="history")
+                return
+        log.append([tag, canon({j: [env.exchange[contracts[j]].bid_price, env.exchange[contracts[j]].ask_price] for j in range(len(specs))})])
+
+    cur = [0]
+    try:
+        env.reset(fold="b")
+        k0 = ndays // 2
+        now[0] = env.now()
+        apply_until(grid[k0])
+        compare("reset")
+        if any(0 < (t - grid[i]).total_seconds() <= 45 for t, _, _ in evs for i in range(k0) if grid[i] < t < grid[i + 1]):
+            probe("replay_with_events_inside_latency_windows")
+        for step in range(k0 + 1, len(grid)):
+            if violations:
+                break
+            cur[0] = step
+            obs, reward, done, info = env.step(np.array([0.0]))
+            now[0] = env.now()
+            apply_until(grid[step])
+            compare("step{}".format(step - k0))
+            stats["ops"] += 1
+            if done:
+                break
+    except core.HarnessError:
+        raise
+    except Exception as e:
+        site = core.library_site(e)
+        if site is None:
+            raise
+        violate(cur[0], "unexpected_exception", "episode mode: {!r} in {}".format(e, site), exc=type(e).__name__, site=site)
+    probe("events_delivered_by_an_episode")
+    return {"violations": violations, "digest": core.digest(log), "probes": probes, "faults": faults, "stats": stats,
+            "trace": "episode|{}|{}".format(len(evs), ndays), "nontrivial": stats["quotes"] >= 1}
+
+
 def _execute(sc, clock0):
+    if (sc.get("mode") or "") == "episode":
+        return _execute_episode(sc, clock0)
     violations, probes, faults, log, trace = [], {}, {}, [], []
     stats = {"ops": 0, "quotes": 0, "queries": 0}
     specs = sc["contracts"]
